@@ -202,3 +202,61 @@ pub fn run_fx(a: &Args) {
     }
     out.write(&a.out, a.shards, "fx");
 }
+
+// ---------------------------------------------------------------- C14: mapped bytecode structure
+fn optop(o: &Option<Op>) -> String { match o { Some(op) => format!("(Some {})", coq_op(op)), None => "None".into() } }
+
+fn mapped_case(bytes: &[u8]) -> (String, serde_json::Value) {
+    use essential_vm::BytecodeMapped;
+    let (p, ops) = presult(bytes);
+    let owned = catch_unwind(|| BytecodeMapped::try_from(bytes.to_vec()));
+    let b2 = bytes.to_vec();
+    let borrowed_ok = catch_unwind(move || BytecodeMapped::try_from(&b2[..]).is_ok()).unwrap_or(false);
+    let (ok, err, indices, mops, random) = match owned {
+        Ok(Ok(m)) => {
+            let idx: Vec<i64> = m.op_indices().iter().map(|i| *i as i64).collect();
+            let m2 = m.clone();
+            let all: Vec<Op> = catch_unwind(move || m2.ops().collect()).unwrap_or_default();
+            let n = all.len();
+            let rnd: Vec<Option<Op>> = (0..n + 2).map(|i| { let m3 = m.clone(); catch_unwind(move || m3.op(i)).unwrap_or(None) }).collect();
+            (borrowed_ok, "(PROk [])".to_string(), idx, all, rnd)
+        }
+        Ok(Err(asm::FromBytesError::InvalidOpcode(e))) => (false, format!("(PRInvalid {})", e.0), vec![], vec![], vec![]),
+        Ok(Err(asm::FromBytesError::NotEnoughBytes(_))) => (false, "PRNotEnough".into(), vec![], vec![], vec![]),
+        Err(_) => (false, "PRPanic".into(), vec![], vec![], vec![]),
+    };
+    let (fib, fii) = match &ops {
+        Some(ops) => { let m: essential_vm::BytecodeMapped = ops.iter().cloned().collect(); (m.bytecode().to_vec(), m.op_indices().iter().map(|i| *i as i64).collect::<Vec<i64>>()) }
+        None => (vec![], vec![]),
+    };
+    (format!("Build_mapped_case {} {} {} {} {} {} {} {} {}", blist(bytes), p, coq_bool(ok), err, zlist(indices.iter().copied()),
+             coq_ops(&mops), list_of(&random, optop), blist(&fib), zlist(fii.iter().copied())),
+     json!({"kind": "mapped", "bytes": bytes, "parse": p}))
+}
+
+pub fn run_mapped(a: &Args) {
+    let all = all_ops();
+    let mut out = Out::new("From EB Require Import Corr.RunMapped.", "mapped_case", &["mapped_mismatches", "mapped_spec_failures"]);
+    out.only = a.only;
+    let mut id = 0u64;
+    let mut push = |out: &mut Out, c: (String, serde_json::Value), kind: &str| { let nt = c.0.len() > 120; out.push(id, c.0, c.1, nt); out.bump(kind); id += 1; };
+    push(&mut out, mapped_case(&[]), "empty");
+    for b in 0..=255u8 { push(&mut out, mapped_case(&[2, b, 3]), "invalid_mid"); }
+    // an invalid opcode at every position of a valid program; truncated Push at the end
+    let prog: Vec<Op> = vec![all[0].clone(), with_imm(&all[0], -1), all[5].clone(), with_imm(&all[0], 7), all[20].clone()];
+    let pb: Vec<u8> = asm::to_bytes(prog.iter().cloned()).collect();
+    for k in 0..=pb.len() { let mut v = pb.clone(); v.insert(k, 0xEE); push(&mut out, mapped_case(&v), "invalid_at"); }
+    for k in 0..=pb.len() { push(&mut out, mapped_case(&pb[..k]), "truncated"); }
+    for i in 0..a.count as u64 {
+        let mut rng = Rng::for_case(a.seed, 14, i);
+        let len = rng.range(0, 30) as usize;
+        let ops = random_ops(&mut rng, &all, len);
+        let mut bytes: Vec<u8> = asm::to_bytes(ops).collect();
+        match rng.below(5) {
+            0 => { let k = rng.below(bytes.len() as u64 + 1) as usize; bytes.truncate(k); push(&mut out, mapped_case(&bytes), "rand_truncated"); }
+            1 if !bytes.is_empty() => { let k = rng.below(bytes.len() as u64) as usize; bytes[k] = rng.next() as u8; push(&mut out, mapped_case(&bytes), "rand_mutated"); }
+            _ => push(&mut out, mapped_case(&bytes), "rand_valid"),
+        }
+    }
+    out.write(&a.out, a.shards, "mapped");
+}
